@@ -56,6 +56,10 @@ def expr_ast(x):
         return ('at', expr_ast(x[1]), expr_ast(x[2]))
     if k == 'len':
         return ('len', expr_ast(x[1]))
+    if k in ('s1', 's2'):
+        return (k, x[1]) + tuple(expr_ast(a) for a in x[2:])
+    if k == 'substr':
+        return ('substr',) + tuple(expr_ast(a) for a in x[1:])
     raise ValueError(x)
 
 
@@ -169,6 +173,10 @@ def node_at(body, path):
                 n = n[1 + k]
             elif t == 'len':
                 n = n[1]
+            elif t in ('s1', 's2'):
+                n = n[2 + k]
+            elif t == 'substr':
+                n = n[1 + k]
             else:
                 raise ValueError((t, k))
     chain.append((n[0], n))
@@ -207,6 +215,8 @@ def consumer(chain, path):
         return 'array-length-arg'
     if pk == 'arr':
         return 'array-element'
+    if pk in progen.STR_NODES:
+        return 'string-builtin-arg'
     if pk == 'if':
         return 'if-cond'
     if pk == 'while':
@@ -270,6 +280,12 @@ def _propagate(chain, path):
         if pk == 'arr':
             # an element of UNKNOWN type is compared with nothing: the literal is an array whatever its elements are
             return 'array-element-type-unchecked'
+        if pk in progen.STR_NODES:
+            # (+ UNKNOWN string) is typed string on purpose ("preserves the string context through nested (+ a (+ b c))",
+            # src/typechecker.c): the other operand of a string + absorbs UNKNOWN; the builtins' operands are never looked at
+            if pk == 's2' and pn[1] == 'plus':
+                return 'string-plus-unknown-operand'
+            return 'string-builtin-arg-unchecked'
         if pk == 'print':
             return 'print-arg-unchecked'
         if pk == 'expr':
@@ -307,6 +323,10 @@ def root_cause(rule, orig_fn, path, arg=0):
             return 'at-index-unchecked' if arg % 2 == 1 else 'at-array-operand-unchecked'
         if oc == 'len':
             return 'array-length-arg-unchecked'
+        if oc in progen.STR_NODES:
+            # the operands of (+ a b) are compared (string + string or numbers: TYPE MISMATCH, the sum is UNKNOWN and the consumers
+            # above decide, as for arithmetic); the string builtins' operands are never looked at
+            return _propagate(chain, path) if (oc == 's2' and node[1] == 'plus') else 'string-builtin-arg-unchecked'
         if oc == 'arr':
             # the first element becomes a bool/string literal.  A one-element literal is then an array of bools/strings, which
             # passes for array<int> everywhere.  With more elements the checker prints "Array elements must all have the same
